@@ -84,6 +84,17 @@ def runConvertCase (id : String) (field : String → List SExp) (events : List (
       | some (_, true) => "wait=returned"
       | _ => "wait=HANG"
     (List.range events.length).map fun k => s!"{id}.{k} {line}"
+  | "statuswait" =>
+    -- the waiter has polled (registered its waker, answer Pending) before the producer's
+    -- terminal, error or completion alike: store the flag, wake (one schedule of the
+    -- system whose every schedule is covered by C14_no_lost_wakeup_fixed)
+    let res := (Conc.dexec Conc.Status.sem (Conc.mkState [Conc.Status.producer, Conc.Status.waiterFixed])
+        Conc.Status.d0 [1, 1, 0, 0, 0]).map fun x => (x.2.res, x.2.woken)
+    let line := match res with
+      | some (some true, _) => "wait=returned"
+      | some (_, true) => "wait=returned"
+      | _ => "wait=HANG"
+    (List.range events.length).map fun k => s!"{id}.{k} {line}"
   | k => [s!"{id}.0 UNKNOWN-KIND {k}"]
 
 end Rx.Driver.Conv
